@@ -178,7 +178,7 @@ def vrfyOf : Waiting → Gen.dhcpmsg.Message → Gen.dhcpmsg.DecodedOptions → 
       pure (Gen.verify.VerifyRebindingAck { Gen.dhcpmsg.Message.zero with YourIP := optIpToGen off }
         { Gen.dhcpmsg.DecodedOptions.zero with ServerIdentifier := optIpToGen ch } (UInt32.ofNat xid) m o)
 
-def Waiting.xid : Waiting → Nat
+def _root_.PsaDhcp.Waiting.xid : Waiting → Nat
   | .offer x => x | .selectingAck _ _ x => x | .renewingAck _ _ x => x | .rebindingAck _ _ x => x
 
 /-- Result of the translated `catchReply` for the model's. -/
